@@ -25,7 +25,16 @@ LinkPose(p, e, i) ==
   ELSE Compose(LinkPose(p, e, i - 1), Step(LinkOffset(p)[i], JointAxis[i], e[i]))
 
 Fk(p, e) == LinkPose(p, e, 6)
-LinkPoses(p, e) == [i \in 1..6 |-> LinkPose(p, e, i)]
+\* all six at once (six compositions; same value as [i \in 1..6 |-> LinkPose(p, e, i)])
+LinkPoses(p, e) ==
+  LET o  == LinkOffset(p)
+      l1 == Step(o[1], JointAxis[1], e[1])
+      l2 == Compose(l1, Step(o[2], JointAxis[2], e[2]))
+      l3 == Compose(l2, Step(o[3], JointAxis[3], e[3]))
+      l4 == Compose(l3, Step(o[4], JointAxis[4], e[4]))
+      l5 == Compose(l4, Step(o[5], JointAxis[5], e[5]))
+      l6 == Compose(l5, Step(o[6], JointAxis[6], e[6]))
+  IN <<l1, l2, l3, l4, l5, l6>>
 
 \* wrist-flipped twin (J4 + 180, -J5, J6 - 180) in effective angles
 Twin(e) == <<e[1], e[2], e[3], AddQuarter(e[4], 2), NegAngle(e[5]), AddQuarter(e[6], 2)>>
